@@ -294,7 +294,7 @@ def whole_entry(P, R):
     fails += [s for s in rets if const_of(s.ev.get('val')) not in (None, 0)]
     zero = [s for s in p.stores() if s.ev['k'] == 'store' and is_var(s.ev.get('lhs')) and s.ev['lhs']['name'] in fam and const_of(s.ev.get('rhs')) == 0]
     zero += [s for s in rets if const_of(s.ev.get('val')) == 0]
-    R.ob('C18.GRD.2', len(fails) >= 2 and len(zero) == 1, fails[0] if fails else p, 'the entry-name parser reports failure for a missing dot and for an unknown severity name (%d failure sites, %d success site)' % (len(fails), len(zero)), key='parser-failures')
+    R.ob('C18.GRD.2', len(fails) >= 2 and len(zero) >= 1, fails[0] if fails else p, 'the entry-name parser reports failure for a missing dot and for an unknown severity name (%d failure sites, %d success site)' % (len(fails), len(zero)), key='parser-failures')
     for s in fails:
         if s.ev['k'] == 'ret':
             R.ob('C18.GRD.2', True, s, 'a failure is returned at once', key='failure-sticks')
